@@ -352,3 +352,38 @@ Definition int_token_outcome (checked : bool) (lim : Z) (t : list Z) : outcome :
 
 Definition chars_of (w : list event) : option (list Z) :=
   fold_right (fun e acc => match e, acc with EvChar c, Some l => Some (c :: l) | _, _ => None end) (Some []) w.
+
+
+(* ---------- punctuation: the (ellipsis | punct | diphthong, TEXT) rule and runs of dots ----------
+   `from ... import x`: the scanner is longest-match, so three consecutive dots are ONE '...' token.
+   p_from_import_statement counts the relative import level as the sum of the token lengths. *)
+Definition ellipsis : re := pStr "...".
+Definition punct : re := pAny ":,;+-*/|&<>=.%`~^?!@".
+Definition diphthong : re :=
+  pStrs ["=="%string; "<>"%string; "!="%string; "<="%string; ">="%string; "<<"%string; ">>"%string; "**"%string; "//"%string; "+="%string; "-="%string; "*="%string; "/="%string; "%="%string; "|="%string; "^="%string; "&="%string;
+         "<<="%string; ">>="%string; "**="%string; "//="%string; "->"%string; "@="%string; "&&"%string; "||"%string; ":="%string].
+Definition text_rule : re := pAlt (pAlt ellipsis punct) diphthong.
+Definition lex_text : ere := rule text_rule.
+
+Definition dot_ev : event := EvChar 46.
+Definition dots (n : nat) : list event := repeat dot_ev n.
+(* token lengths of a run of n dots under longest match: n/3 times '...' and then n mod 3 times '.' *)
+Definition dot_tokens (n : nat) : list nat := repeat 3%nat (n / 3) ++ repeat 1%nat (n mod 3).
+(* Parsing.p_from_import_statement: level += len(s.sy) for every '.' / '...' token *)
+Definition import_level (toks : list nat) : nat := fold_right Nat.add 0%nat toks.
+(* executable longest-match length of rule r on w (0 = no match), for the correspondence run *)
+Fixpoint longest_from (r : ere) (w : list event) (pos best : nat) : nat :=
+  match w with
+  | [] => best
+  | e :: w' => let r' := n_deriv e r in
+               if is_empty r' then best
+               else longest_from r' w' (S pos) (if e_nullable r' then S pos else best)
+  end.
+Definition longest (r : ere) (w : list event) : nat := longest_from r w 0 0.
+Fixpoint scan_dots (fuel : nat) (fixed : bool) (n : nat) : list nat :=
+  match fuel, n with
+  | O, _ | _, O => []
+  | S f, _ => let k := longest lex_text (dots n) in
+              if (0 <? longest (lex_number fixed) (dots n))%nat then [] else
+              match k with O => [] | _ => k :: scan_dots f fixed (n - k) end
+  end.
